@@ -53,6 +53,7 @@ type entryResult struct {
 	Done        int64                  `json:"paths_completed"`
 	Panicked    int64                  `json:"paths_panicked"`
 	Dropped     int64                  `json:"paths_dropped_infeasible"`
+	MergedPaths int64                  `json:"callee_paths_merged"`
 	Steps       int64                  `json:"ssa_instructions_executed"`
 	UnwindFail  int64                  `json:"unwinding_failures"`
 	Aborts      []string               `json:"engine_aborts,omitempty"`
@@ -344,7 +345,7 @@ func runEntry(prog *ssa.Program, byDir map[string]*ssa.Package, e *entry, tier s
 	cfg := sym.Config{
 		MaxStrLen: 6, Unwind: 16, MaxSteps: 2000000, MaxPaths: 200000, TimeoutMs: 10000, Workers: workers, Backend: backend,
 		Encode:  []string{"github.com/kubewharf/kubegateway", "github.com/kubewharf/apiserver-runtime"},
-		Replace: map[string]string{}, Stubs: map[string]bool{}, ZeroGlobals: map[string]bool{}, Witnesses: 24, Debug: debug, Tier: tier,
+		Replace: map[string]string{}, Stubs: map[string]bool{}, ZeroGlobals: map[string]bool{}, Merge: map[string]bool{}, Witnesses: 24, Debug: debug, Tier: tier,
 	}
 	budget := 600
 	if tier == "thorough" {
@@ -367,6 +368,8 @@ func runEntry(prog *ssa.Program, byDir map[string]*ssa.Package, e *entry, tier s
 			}
 		case "stub":
 			cfg.Stubs[val] = true
+		case "merge":
+			cfg.Merge[val] = true
 		case "init":
 			cfg.InitPkgs = append(cfg.InitPkgs, val)
 		case "zeroglobal":
@@ -420,6 +423,7 @@ func runEntry(prog *ssa.Program, byDir map[string]*ssa.Package, e *entry, tier s
 	ex.Run()
 	res.ex = ex
 	res.Paths, res.Done, res.Panicked, res.Dropped = ex.Paths, ex.PathsDone, ex.PathsPanic, ex.PathsDrop
+	res.MergedPaths = ex.MergedPaths
 	res.Steps, res.UnwindFail, res.Aborts, res.TimedOut = ex.Steps, ex.UnwindFail, ex.Aborts, ex.TimedOut
 	for _, o := range ex.SortedObs() {
 		res.Obligations = append(res.Obligations, obJSON{o.Tag, o.Reached, o.Discharged, o.Sat, o.Unknown})
